@@ -591,7 +591,87 @@ end Jwt.Generated
     return "ConcFacts.lean", text, {"statics": writable, "writers": {k: sorted(v) for k, v in writers.items()}, "table_writes": table_writes, "casts": casts}
 
 
-GENERATORS = [gen_base64, gen_alg, gen_common, gen_jwk, gen_ops, gen_cli, gen_conc]
+def gen_ecframe(repo, build):
+    """constants of the ECDSA r||s framing in both provider glues"""
+    g = open(os.path.join(repo, "libjwt/gnutls/sign-verify.c")).read()
+    o = open(os.path.join(repo, "libjwt/openssl/sign-verify.c")).read()
+    # gnutls sign: `if (jwt->alg == A [|| jwt->alg == B]) adj = N;`
+    adj = []
+    for m in re.finditer(r"if\s*\(((?:\s*jwt->alg\s*==\s*JWT_ALG_\w+\s*(?:\|\|)?)+)\)\s*adj\s*=\s*(\d+)\s*;", g):
+        for a in re.findall(r"JWT_ALG_\w+", m.group(1)):
+            adj.append((a, int(m.group(2))))
+    if len(adj) < 3 or len(set(a for a, _ in adj)) != len(adj):
+        raise ExtractError("gnutls sign: expected `if (jwt->alg == ...) adj = N;` per ES algorithm, found %r" % adj)
+    if len(re.findall(r"\badj\s*=", g)) != len(set(v for _, v in adj)):
+        raise ExtractError("gnutls sign: an assignment to adj outside the recognised shape")
+    m = re.search(r"out_size\s*=\s*adj\s*<<\s*1\s*;", g)
+    if not m:
+        raise ExtractError("gnutls sign: out_size = adj << 1 not found")
+    # gnutls verify: width chosen from the algorithm, exact-length test, the two halves
+    m = re.search(r"((?:(?:else\s+)?if\s*\(\s*jwt->alg\s*==\s*JWT_ALG_\w+\s*\)\s*r\.size\s*=\s*\d+\s*;\s*)+)else\s+r\.size\s*=\s*(\d+)\s*;", g)
+    if not m:
+        raise ExtractError("gnutls verify: `if (jwt->alg == A) r.size = N; ... else r.size = D;` not found")
+    vw = [(a_, int(n_)) for a_, n_ in re.findall(r"jwt->alg\s*==\s*(JWT_ALG_\w+)\s*\)\s*r\.size\s*=\s*(\d+)", m.group(1))]
+    vw_default = int(m.group(2))
+    if len(re.findall(r"\br\.size\s*=", g)) != len(vw) + 1 or len(re.findall(r"\bs\.size\s*=", g)) != 1:
+        raise ExtractError("gnutls verify: an assignment to r.size / s.size outside the recognised shape")
+    m = re.search(r"if\s*\(\(unsigned int\)sig_len\s*!=\s*(\d+)\s*\*\s*r\.size\)\s*VERIFY_ERROR", g)
+    if not m:
+        raise ExtractError("gnutls verify: exact-length test `sig_len != N * r.size` not found")
+    gv_mul = int(m.group(1))
+    if not re.search(r"r\.data\s*=\s*sig\s*;\s*s\.size\s*=\s*r\.size\s*;\s*s\.data\s*=\s*sig\s*\+\s*r\.size\s*;", g):
+        raise ExtractError("gnutls verify: halves `r.data = sig; s.size = r.size; s.data = sig + r.size;` not found")
+    # openssl: bn_len expression at the sign and the verify site, the total length, the length test
+    bn = re.findall(r"bn_len\s*=\s*([^;]+);", o)
+    if len(bn) != 2:
+        raise ExtractError("openssl: expected two assignments to bn_len, found %d" % len(bn))
+    bn_l = []
+    for e in bn:
+        e2 = e.replace("jwt->key->bits", "bits")
+        if not re.fullmatch(r"\(\s*bits\s*\+\s*\d+\s*\)\s*/\s*\d+", e2.strip()):
+            raise ExtractError("openssl: bn_len expression outside the translatable fragment: %r" % e)
+        bn_l.append(e2.strip())
+    m = re.search(r"buf_len\s*=\s*(\d+)\s*\*\s*bn_len\s*;", o)
+    if not m:
+        raise ExtractError("openssl sign: buf_len = N * bn_len not found")
+    buf_mul = int(m.group(1))
+    m = re.search(r"if\s*\(\(bn_len\s*\*\s*(\d+)\)\s*!=\s*\(unsigned int\)slen\)", o)
+    if not m:
+        raise ExtractError("openssl verify: length test (bn_len * N) != slen not found")
+    ver_mul = int(m.group(1))
+    text = f"""/- GENERATED by tie/extract.py from libjwt/gnutls/sign-verify.c and libjwt/openssl/sign-verify.c -- do not edit.
+   Regenerated from /repo on every check run; Jwt/EcFrame.lean and Jwt/Props/C05.lean are stated over these. -/
+import Jwt.AlgType
+namespace Jwt.Generated
+
+/-- gnutls/sign-verify.c: `if (jwt->alg == …) adj = N;` -/
+def gnutlsAdj : List (Alg × Nat) := [{", ".join("(.%s, %d)" % (ALG_LEAN[a], v) for a, v in adj)}]
+
+/-- gnutls/sign-verify.c verify: `if (jwt->alg == …) r.size = N; … else r.size = D;` -/
+def gnutlsVerifyWidth (a : Alg) : Nat :=
+  {" ".join("if a = .%s then %d else" % (ALG_LEAN[a_], n_) for a_, n_ in vw)} {vw_default}
+
+/-- `sig_len != N * r.size` -/
+def gnutlsVerifyMul : Nat := {gv_mul}
+
+/-- openssl/sign-verify.c `jwt_ec_d2i`: bn_len -/
+def osslBnLenSign (bits : Nat) : Nat := {bn_l[0]}
+
+/-- openssl/sign-verify.c verify: bn_len -/
+def osslBnLenVerify (bits : Nat) : Nat := {bn_l[1]}
+
+/-- `buf_len = N * bn_len` -/
+def osslBufMul : Nat := {buf_mul}
+
+/-- `(bn_len * N) != slen` -/
+def osslVerifyMul : Nat := {ver_mul}
+
+end Jwt.Generated
+"""
+    return "EcTables.lean", text, {"gnutlsAdj": adj, "gnutlsVerifyWidth": vw, "gnutlsVerifyDefault": vw_default, "gnutlsVerifyMul": gv_mul, "bn_len": bn_l, "buf_mul": buf_mul, "ver_mul": ver_mul}
+
+
+GENERATORS = [gen_base64, gen_alg, gen_common, gen_jwk, gen_ops, gen_cli, gen_conc, gen_ecframe]
 
 
 def main():
